@@ -29,6 +29,10 @@ def representable(kind, v):
     if kind == "f64": return abs(x.numerator) < 2 ** 53 and (x.denominator & (x.denominator - 1)) == 0
     return True
 
+def shape_class(sh):
+    sc, r, c = sh
+    return "scalar" if sc == 1 else ("one" if (r, c) == (1, 1) else ("row" if r == 1 else ("col" if c == 1 else "mat")))
+
 def define(name, kind, sh, vals):
     sc, r, c = sh
     if sc == 1:
@@ -91,7 +95,7 @@ def run(rep, tier, seed):
         if exp != "reject" and any(e["def"] and not representable(rk0, conc(rk0, e["v"])) for e in res.get("d", [])):
             tally["free"] += 1; tally["result_not_representable"] += 1; continue      # overflow: outside the property
         if exp == "reject":
-            if ok: rep.fail(f"C01/{cs['op']}/accepts-incompatible", f"{req['stmts']} returned {absval.short(absval.absval(ev['v']))} for incompatible shapes", replay)
+            if ok: rep.fail(f"C01/{cs['op']}/accepts-incompatible/{shape_class(cs['ls'])},{shape_class(cs['rs'])}", f"{req['stmts']} returned {absval.short(absval.absval(ev['v']))} for incompatible shapes", replay)
             else: tally["reject_ok"] += 1
             continue
         if not ok:
